@@ -28,7 +28,7 @@ def run_case(c):
                 o[key] = enc.arr(v, 1000)
             o["data_after"] = enc.arr(s.original_data, 1000)
         else:
-            x = np.array([c["x"]], dtype=float)
+            x = np.array([c["x"], c["x2"]], dtype=float)
             s = Surrogates(original_data=enc.represent(x, c["case"])[0], silence_level=3)
             if c.get("prior"):
                 try:
@@ -39,6 +39,8 @@ def run_case(c):
             tw = s.twins(8.0, min_dist=c["md"])
             o["twins"] = [[int(v) for v in t] for t in tw[0]]
             o["surr"] = [int(round(v)) for v in surr[0]]
+            o["twins2"] = [[int(v) for v in t] for t in tw[1]]
+            o["surr2"] = [int(round(v)) for v in surr[1]]
     except Exception as ex:
         o["exc"] = type(ex).__name__
     rec["obs"] = o
@@ -48,7 +50,7 @@ def run_case(c):
 def _nontrivial(rec):
     if rec["blk"] == "spec":
         return True
-    return any(len(t) for t in rec["obs"].get("twins", []))
+    return any(len(t) for t in rec["obs"].get("twins", []) + rec["obs"].get("twins2", []))
 
 
 def main(ctx):
